@@ -131,8 +131,10 @@ PatsD == {<<"L", "P", "L">>, <<"W", "O", "W">>}
 
 NoStates == pc < 0       \* CONSTRAINT of the run that only prints
 \* (enumerated pattern set by pattern set: TLC need not normalise the union)
-Init == \E pats \in PatSets : \E c \in CasesFor(pats) :
-            WellFormed(c) /\ Start(c, FALSE)
+\* WellFormed is a filter, not a conjunct of Init: TLC would enumerate
+\* every witness of its existential quantifiers as a separate initial state
+Init == \E pats \in PatSets :
+            \E c \in {x \in CasesFor(pats) : WellFormed(x)} : Start(c, FALSE)
 Spec == Init /\ [][Next]_vars
 
 ASSUME Emit => \A p \in Programs : PrintT(<<"PROG", ToJson(p)>>)
